@@ -512,11 +512,11 @@ func (c *Chip) doReadBinary(cmd CAPDU, viaSM bool, ex *Exchange) ([]byte, uint16
 		}
 	}
 	status := uint16(0x9000)
-	wanted := cmd.Le
+	beyondEOF := cmd.Le > avail
 	if odd {
-		wanted = cmd.Le - 1 - len(EncLen(n)) // Le covers the DO'53' header too
+		beyondEOF = cmd.Le > 1+len(EncLen(avail))+avail // Le covers the DO'53' header too
 	}
-	if wanted > avail && c.B.EOFWarning {
+	if beyondEOF && c.B.EOFWarning {
 		status = 0x6282
 	}
 	ex.Action = fmt.Sprintf("read-binary %04X off=%d le=%d n=%d", c.curEF, offset, cmd.Le, n)
